@@ -203,6 +203,15 @@ impl NostrGroupDataExtension {
         for relay in raw.relays {
             let url: &str = str::from_utf8(&relay)?;
             let url = RelayUrl::parse(url)?;
+            // The relay is kept as a parsed URL and written out again in its normalised
+            // spelling whenever the group data is re-encoded. A few inputs parse although their
+            // normalised spelling does not ("wss:a/b://c" becomes "wss://a/b://c"): accepting
+            // them would leave a value that this very parser refuses once it is serialised.
+            if RelayUrl::parse(&url.to_string()).ok().as_ref() != Some(&url) {
+                return Err(Error::ExtensionFormatError(
+                    "Relay URL does not survive normalisation".to_string(),
+                ));
+            }
             relays.insert(url);
         }
 
